@@ -505,6 +505,10 @@ func c18RunGate(g c18Gate) (drv.Result, string) {
 	if has("change_streams") != wantCS {
 		return drv.Result{Verdict: drv.Violated, Clause: "gate-changestreams", FindingKey: "C18/gate-changestreams", Detail: desc, Witness: w}, desc
 	}
+	if wantSerial && !g.Reopen && cr != 4 {
+		// below 5.5.0 the streams are closed one after the other by a loop of the library's own: every one of the 4 open streams
+		return drv.Result{Verdict: drv.Violated, Clause: "gate-serial-close", FindingKey: "C18/gate-serial-close-incomplete", Detail: fmt.Sprintf("serial closing below 5.5.0 sent %d CLOSE_STREAM requests for 4 open streams: %s", cr, desc), Witness: w}, desc
+	}
 	if fh && cr >= 2 {
 		if wantSerial && ov {
 			return drv.Result{Verdict: drv.Violated, Clause: "gate-serial-close", FindingKey: "C18/gate-serial-close", Detail: "overlapping CLOSE_STREAM below 5.5.0: " + desc, Witness: w}, desc
